@@ -24,6 +24,8 @@ def wl_cbf(ctx, rng, case):
     import probables as P
 
     est, rate = rng.choice([(1, 0.5), (2, 0.3), (2, 0.05), (3, 0.2), (5, 0.1), (5, 0.01), (10, 0.05), (25, 0.01), (10, 0.001)])
+    if rng.random() < 0.35:
+        est, rate, _, _ = gen.bloom_geometry(rng, max_bits=600)  # any small sizing, not only the nine above
     keys = gen.universe(rng, rng.randint(2, 14))
     hname, hf = gen.pick_hash(rng, keys)
     f = P.CountingBloomFilter(est, rate, **bl.kw_hash(hf))
